@@ -896,7 +896,158 @@ def _case_carrier(case, out, stats):
             stats["set_calls"] = stats.get("set_calls", 0) + 2
 
 
-_SUBS = {"magnitude": _case_magnitude, "carrier": _case_carrier, "history": _case_history, "dict": _case_dict, "default": _case_default, "access": _case_access, "ops": _case_ops, "regen": _case_regen,
+# ---- every way of editing a species, then regenerate ---------------------------------------------------
+
+EDIT_OPS = ["set:chstt=flip", "set:chstt={e0}", "set:chstt={e1,default}",
+            "get:chstt[e0]=flip", "get:chstt[e2]=flip", "get:chstt[default]=flip", "get:del-chstt[e0]", "get:del-chstt[default]",
+            "get:chstt.clear", "get:chstt.update",
+            "ctor:chstt[e0]=flip", "ctor:chstt[default]=flip", "ctor:del-chstt[e1]",
+            "set:density=scalar", "set:density={e0,default}",
+            "get:density[e0]=uv", "get:density[default]=uv", "get:del-density[e1]", "get:del-density[default]",
+            "ctor:density[e0]=uv", "ctor:del-density[e1]"]
+
+
+def live_model(case, net):
+    """The description of what the network's PUBLIC attributes report now (labels, environments, densities
+    as exact SI values, chstt as stored)."""
+    m = dict(case)
+    m["envs"] = list(net.environments)
+    sp = []
+    for k, s_ in enumerate(net.species):
+        d = s_.density
+        if isinstance(d, dict):
+            dens = {key: ["si", uq.si_value(v), "density"] for key, v in d.items()}
+        else:
+            dens = ["si", uq.si_value(d), "density"]
+        c = s_.chstt
+        sp.append({"label": s_.label, "us": 0, "density": dens, "chstt": dict(c) if isinstance(c, dict) else c})
+    m["species"] = sp
+    return m
+
+
+def edit_apply(op, sp, envs, held, i):
+    """Apply one edit to Species sp. held = {'chstt': dict object last passed in by the caller or None,
+    'density': likewise}. Returns False when the edit does not apply (e.g. item assignment on a scalar)."""
+    how, what = op.split(":", 1)
+    attr = "chstt" if "chstt" in what else "density"
+    e = {"e0": envs[0], "e1": envs[1], "e2": envs[2], "default": "default"}
+
+    def eff(key):
+        cur = getattr(sp, attr)
+        v, route = D.lookup(cur, key) if key != "default" else ((cur.get("default"), "d") if isinstance(cur, dict) else (cur, "s"))
+        return v
+    if how == "set":
+        if what == "chstt=flip":
+            cur = sp.chstt
+            sp.chstt = (not bool(cur)) if not isinstance(cur, dict) else True
+            held["chstt"] = None
+        elif what == "chstt={e0}":
+            d = {e["e0"]: not bool(eff(e["e0"]))}
+            sp.chstt = d
+            held["chstt"] = d
+        elif what == "chstt={e1,default}":
+            d = {e["e1"]: False, "default": True}
+            sp.chstt = d
+            held["chstt"] = d
+        elif what == "density=scalar":
+            sp.density = 211 + i
+            held["density"] = None
+        elif what == "density={e0,default}":
+            d = {e["e0"]: 223 + i, "default": "%d nM" % (227 + i)}
+            sp.density = d
+            held["density"] = d
+        else:
+            raise ValueError(op)
+        return True
+    target = getattr(sp, attr) if how == "get" else held[attr]
+    if not isinstance(target, dict):
+        return False
+    uv = UnitValue(229 + 2 * i, "nM")
+    if what.endswith("=flip"):
+        key = e[what[what.index("[") + 1:what.index("]")]]
+        target[key] = not bool(eff(key))
+    elif what.endswith("=uv"):
+        key = e[what[what.index("[") + 1:what.index("]")]]
+        target[key] = uv
+    elif what.startswith("del-"):
+        key = e[what[what.index("[") + 1:what.index("]")]]
+        if key not in target:
+            return False
+        del target[key]
+    elif what == "chstt.clear":
+        if not target:
+            return False
+        target.clear()
+    elif what == "chstt.update":
+        target.update({e["e2"]: True, "default": False, e["e0"]: True})
+    else:
+        raise ValueError(op)
+    return True
+
+
+def _edit_run(case, out, stats):
+    base = hist_base(case["start"])
+    envs = base["envs"]
+    held_all = []
+    species = []
+    for s_ in base["species"]:
+        dd, cc = mk_spec(s_["density"]), mk_flag(s_["chstt"])
+        held_all.append({"density": dd if isinstance(dd, dict) else None, "chstt": cc if isinstance(cc, dict) else None})
+        species.append(Species(s_["label"], density=dd, chstt=cc, units_system=mk_us(s_["us"])))
+    net = RDNetwork(species, [], environments=list(envs), units_system=mk_us(base["net_us"]))
+    system = RDSystem(net, build_space(base), units_system=mk_us(base["sys_us"]))
+    i = case["target"]
+    applied = 0
+    for op in case["ops"]:
+        if edit_apply(op, net.species[i], envs, held_all[i], i):
+            applied += 1
+        else:
+            stats["edits_not_applicable"] = stats.get("edits_not_applicable", 0) + 1
+    stats["edits_applied"] = stats.get("edits_applied", 0) + applied
+    model = live_model(base, net)
+    hname = "%s" % ",".join(case["ops"])
+    for sync in ("new-system", "regenerate"):
+        if sync == "new-system":
+            sysx = RDSystem(net, system.space, units_system=mk_us(base["sys_us"]))
+        else:
+            system.set_default_state()
+            system.set_default_chemostats()
+            sysx = system
+        sub = []
+        check_defaults(model, sysx, sub, stats, site="x")
+        getter_pass(model, net, sysx, sub, stats, forms="one", tag="after-edit")
+        seen = set()
+        for k, w in sub:
+            p = k.split(":")
+            cls = "chemostats" if "chemostats" in p or p[1] == "get_chemostat" else "state"
+            kk = "C13:edit:%s:%s:%s" % (hname, sync, cls)
+            if kk not in seen:
+                seen.add(kk)
+                out.append((kk, "species %d after %s, %s: %s" % (i, hname, sync, w)))
+    return applied
+
+
+def _case_edit(case, out, stats):
+    """Only minimal violating edit sequences are reported (see _case_history)."""
+    mine = []
+    _edit_run(case, mine, stats)
+    ops = list(case["ops"])
+    if mine and len(ops) > 1:
+        for k in range(len(ops)):
+            sub = dict(case)
+            sub["ops"] = ops[:k] + ops[k + 1:]
+            inner = []
+            try:
+                _edit_run(sub, inner, {})
+            except Exception as e:
+                inner = [("x", str(e))]
+            if inner:
+                stats["edit_sequences_not_minimal"] = stats.get("edit_sequences_not_minimal", 0) + 1
+                return
+    out.extend(mine)
+
+
+_SUBS = {"edit": _case_edit, "magnitude": _case_magnitude, "carrier": _case_carrier, "history": _case_history, "dict": _case_dict, "default": _case_default, "access": _case_access, "ops": _case_ops, "regen": _case_regen,
          "override": _case_override}
 
 
@@ -1459,9 +1610,33 @@ def sp_carrier(tier):
     return name, seeds, expand
 
 
-SPACE_BUILDERS = [sp_shapes, sp_layout, sp_units, sp_access, sp_set1, sp_set2, sp_regen, sp_dict, sp_history, sp_magnitude, sp_carrier]
+def sp_edit(tier):
+    seeds = []
+    for start in ("grid", "graph"):
+        for i in range(3):
+            for a in EDIT_OPS:
+                seeds.append((start, i, (a,)))
+            for a in EDIT_OPS:
+                for b in EDIT_OPS:
+                    seeds.append((start, i, (a, b)))
+
+    def expand(seed):
+        start, i, ops = seed
+        base = hist_base(start)
+        base.update({"sub": "edit", "start": start, "target": i, "ops": list(ops)})
+        return base
+    name = ("edit: ONE network (3 species with scalar / full / partial / partial+default density and chstt, environments [in,\"\",out]) on "
+            "a grid 2x1x2 | graph of 3 nodes; each species x ALL sequences of <= 2 of %d ways of editing it: attribute assignment "
+            "(scalar, dict, dict+default), IN-PLACE mutation of the dict returned by species.chstt / species.density (set / add / "
+            "delete an environment key or 'default', clear, update; density values as UnitValue), in-place mutation of the dict "
+            "object passed to the constructor / setter; then a NEW RDSystem and set_default_state() + set_default_chemostats(): "
+            "both arrays = reference of what the species' public attributes report NOW" % len(EDIT_OPS))
+    return name, seeds, expand
+
+
+SPACE_BUILDERS = [sp_shapes, sp_layout, sp_units, sp_access, sp_set1, sp_set2, sp_regen, sp_dict, sp_history, sp_magnitude, sp_carrier, sp_edit]
 CHUNK = {"sp_shapes": 400, "sp_layout": 60, "sp_units": 60, "sp_access": 2, "sp_set1": 400, "sp_set2": 300, "sp_regen": 60,
-         "sp_override": 40, "sp_dict": 60, "sp_history": 12, "sp_magnitude": 150, "sp_carrier": 1}
+         "sp_override": 40, "sp_dict": 60, "sp_history": 12, "sp_magnitude": 150, "sp_carrier": 1, "sp_edit": 100}
 
 _SPACES = None
 
@@ -1472,6 +1647,8 @@ def _nontrivial(case, stats):
         return stats.get("state_entries_changed", 0) + stats.get("flags_flipped", 0) > 0
     if sub == "history":
         return len(case["ops"]) > 0
+    if sub == "edit":
+        return stats.get("edits_applied", 0) > 0
     if sub == "magnitude":
         return stats.get("extreme_entries_compared", 0) > 0
     if sub == "carrier":
